@@ -11,6 +11,8 @@ What is proved for ALL byte strings / spec lists / item lists:
   * partial names match exactly the names git's `refname_match` scores > 0 (`partial_name_eq_git`);
   * non-pattern destinations are git's `get_local_ref` (`dst_eq_git`, after fix 92c80ac20);
   * negative full-name specs are git's `refspec_match` (`negative_eq_git`);
+  * one glob spec against distinct remote refs yields git's `get_expanded_map` pairs, in order
+    (`glob_spec_mappings_eq_git`);
   * `parse` only produces balanced specs (`parse_balanced`), and on balanced specs — hence on
     everything `parse` accepts — `match_remotes` never panics (`match_total`, `match_total_parsed`).
 The mapping-level statement `C32_full` (whole spec lists, as sets of (source, destination, force))
@@ -99,6 +101,25 @@ example : parseFetch (fun _ => true) [114, 101, 102, 115, 47, 104, 101, 97, 100,
 example : matchRemotes [⟨.normal, some [114, 101, 102, 115, 47, 104, 101, 97, 100, 115, 47, 97, 42, 97], some [114, 101, 102, 115, 47, 120, 47, 97, 42, 97]⟩]
     [⟨[114, 101, 102, 115, 47, 104, 101, 97, 100, 115, 47, 97], [], none⟩, ⟨[114, 101, 102, 115, 47, 104, 101, 97, 100, 115, 47, 97, 97], [], none⟩] =
     some [⟨some 1, .name [114, 101, 102, 115, 47, 104, 101, 97, 100, 115, 47, 97, 97], some [114, 101, 102, 115, 47, 120, 47, 97, 97], 0⟩] := by decide +kernel
+
+/-- Mapping level, for the everyday shape of a fetch refspec: ONE glob spec `[+]key:value` matched
+against any list of remote refs with pairwise distinct names (none containing `^`). `match_remotes`
+does not panic and produces, in the same order, exactly the (source, destination) pairs of git's
+`get_expanded_map` — before git's "funny ref" filter and gitoxide's `validated()`, whose difference
+is `differs_invalid_destination` / `differs_head_destination`. -/
+theorem glob_spec_mappings_eq_git (mode : Mode) (k v : Bytes) (kp vp : Nat) (hk : findStar k = some kp)
+    (hv : findStar v = some vp) (hm : mode ≠ .negative) (items : List Item)
+    (hd : (items.map (·.name)).Nodup) (hc : ∀ it ∈ items, it.name.contains 94 = false) :
+    ∃ ms gm, matchRemotes [⟨mode, some k, some v⟩] items = some ms ∧
+      Spec.C32.getExpandedMap (items.map (·.name)) (gitItemOf ⟨mode, some k, some v⟩) = .ok gm ∧
+      gm.map gitPairOf = ms.map pairOf := by
+  obtain ⟨gm, hg, he⟩ := expandedMap_eq_globMaps k v kp vp hk hv (mode == .negative) (mode == .force)
+    (findStar k).isSome (isHex40 k) 0 items 0 hc
+  exact ⟨_, gm, matchRemotes_single_glob mode k v kp vp hk hv hm items hd, by simpa [gitItemOf] using hg, he⟩
+
+example : matchRemotes [⟨.force, some [114, 101, 102, 115, 47, 104, 101, 97, 100, 115, 47, 42], some [114, 101, 102, 115, 47, 114, 101, 109, 111, 116, 101, 115, 47, 111, 47, 42]⟩]
+    [⟨[72, 69, 65, 68], [], none⟩, ⟨[114, 101, 102, 115, 47, 104, 101, 97, 100, 115, 47, 97], [], none⟩, ⟨[114, 101, 102, 115, 47, 116, 97, 103, 115, 47, 118, 49], [], none⟩] =
+    some [⟨some 1, .name [114, 101, 102, 115, 47, 104, 101, 97, 100, 115, 47, 97], some [114, 101, 102, 115, 47, 114, 101, 109, 111, 116, 101, 115, 47, 111, 47, 97], 0⟩] := by decide +kernel
 
 /-- The property at full strength: for every list of refspecs the parser accepts and every list of
 remote refs, matching does not panic and the validated mappings are, as a set of
